@@ -9,7 +9,7 @@
                    array_match_path_or_ext()                 -> `matchPathOrExt`
     src/mod_access.c      mod_access_check()                 -> `accessCheck`
     src/mod_auth.c        mod_auth_uri_handler() rule lookup -> `authRule`
-    src/mod_staticfile.c  exclude-extensions test            -> `staticExclude`
+    src/mod_staticfile.c  exclude-extensions test, disable-pathinfo -> `staticExclude`, `Block.noPathinfo`
     src/configfile-glue.c config_check_cond_nocache_eval()   -> `Scope.holds`
                           (url / host / remoteip conditions; `==` on the host is C14's `Cond.eqLike`;
                            the cache and its resets are C14's)
@@ -98,6 +98,9 @@ inductive Scope where
   | host (op : StrOp) (s : Bytes)
   | hostRe (neg : Bool) (m : Bytes → Bool)    -- $HTTP["host"] =~ / !~
   | ip (neg : Bool) (net : SockAddr) (bits : Nat)   -- == / != "addr/bits" (bits 0 = whole address)
+  | ipRe (neg : Bool) (m : Bytes → Bool)      -- $HTTP["remoteip"] =~ / !~ : on the TEXT r->dst_addr_buf
+  | both (a b : Scope)     -- a block nested in another: the enclosing condition must hold too
+  | non (a : Scope)        -- `else`: the earlier branch(es) of the chain did not hold
 
 /-- ranges a continuation byte may have to lie in (RFC 3629 table 3-7) -/
 inductive U8Range where
@@ -150,11 +153,16 @@ def validUtf8 (u : Bytes) : Bool :=
 def reCaselessPrefix (lit u : Bytes) : Bool := validUtf8 u && preMatch true lit u
 def reCaselessSuffix (lit u : Bytes) : Bool := validUtf8 u && sufMatch true lit u
 
+/-- the client address a request is attributed to -/
+structure Addr where
+  sa : SockAddr       -- r->dst_addr
+  text : Bytes        -- r->dst_addr_buf (the spelling: the peer's, or the forwarded header's)
+
 /-- the request attributes conditions test -/
 structure Env where
   url : Bytes         -- r->uri.path
   host : Bytes        -- r->uri.authority
-  addr : SockAddr     -- r->dst_addr
+  addr : Addr
 
 def strOp (op : StrOp) (s l : Bytes) : Bool :=
   match op with
@@ -170,7 +178,9 @@ def strOp (op : StrOp) (s l : Bytes) : Bool :=
 def hostEq (s l : Bytes) : Bool :=
   Cond.eqLike { comp := .host, cond := .eq, str := s } { host := l }
 
-/-- config_check_cond_nocache_eval() for the conditions modelled here -/
+/-- config_check_cond_nocache_eval() for the conditions modelled here; nesting and else-chains
+    (config_check_cond_nocache(): parent / prev) are `both` / `non`: conditions are evaluated
+    afresh, which is what the cached evaluation amounts to (C14) -/
 def Scope.holds (sc : Scope) (e : Env) : Bool :=
   match sc with
   | .global => true
@@ -181,15 +191,63 @@ def Scope.holds (sc : Scope) (e : Env) : Bool :=
   | .host op s => strOp op s e.host
   | .hostRe neg m => m e.host != neg
   | .ip neg net bits =>
-    (if bits ≠ 0 then SockAddr.addrEqBits net e.addr bits else SockAddr.addrEq net e.addr) != neg
+    (if bits ≠ 0 then SockAddr.addrEqBits net e.addr.sa bits else SockAddr.addrEq net e.addr.sa) != neg
+  | .ipRe neg m => m e.addr.text != neg
+  | .both a b => a.holds e && b.holds e
+  | .non a => !a.holds e
+
+/-- conditions that do not distinguish the letter case of the URL: everything except the
+    case-sensitive string comparisons on `$HTTP["url"]`; a regular expression on the URL must be
+    case-insensitive -/
+def Scope.caseBlind : Scope → Prop
+  | .url _ _ => False
+  | .urlRe _ m => ∀ u v : Bytes, u.map toLower = v.map toLower → m u = m v
+  | .both a b => a.caseBlind ∧ b.caseBlind
+  | .non a => a.caseBlind
+  | _ => True
+
+/-- conditions that do not look at the URL at all -/
+def Scope.urlFree : Scope → Prop
+  | .url _ _ => False
+  | .urlRe _ _ => False
+  | .both a b => a.urlFree ∧ b.urlFree
+  | .non a => a.urlFree
+  | _ => True
+
+/-- conditions that cannot tell `name` from `name:port`: `==` / `!=` against a name without port
+    (the port-tolerant comparison), regular expressions that allow for a port; not `=^` / `=$` -/
+def Scope.portBlind : Scope → Prop
+  | .host .eq s => colon ∉ s ∧ s.head? ≠ some slash
+  | .host .ne s => colon ∉ s ∧ s.head? ≠ some slash
+  | .host _ _ => False
+  | .hostRe _ m => ∀ n port : Bytes, colon ∉ n → colon ∉ port → port.length ≤ 5 →
+      m (n ++ colon :: port) = m n
+  | .both a b => a.portBlind ∧ b.portBlind
+  | .non a => a.portBlind
+  | _ => True
+
+/-- one auth.require rule: path prefix and who may pass -/
+structure AuthRule where
+  pfx : Bytes
+  users : Option (List Bytes) := none       -- "require" => "valid-user" (none) | "user=a|user=b"
+
+/-- http_auth_match_rules(): does the rule accept the authenticated user (if any)?
+    (the user array is keyed: ASCII case-insensitive) -/
+def AuthRule.accepts (r : AuthRule) (user : Option Bytes) : Bool :=
+  match user with
+  | none => false
+  | some u => match r.users with
+    | none => true
+    | some us => us.any (fun x => eqIcase x u)
 
 /-- one configuration block (the global scope or a conditional) and what it assigns -/
 structure Block where
   scope : Scope
   allow : Option (List Bytes) := none       -- url.access-allow
   deny : Option (List Bytes) := none        -- url.access-deny
-  auth : Option (List Bytes) := none        -- auth.require: the path prefixes, in file order
+  auth : Option (List AuthRule) := none     -- auth.require, in file order
   exclude : Option (List Bytes) := none     -- static-file.exclude-extensions
+  noPathinfo : Option Bool := none          -- static-file.disable-pathinfo
   forwarder : Option Extforward.Forwarder := none   -- extforward.forwarder
   fwdHeaders : Option (List Bytes) := none  -- extforward.headers
 
@@ -205,9 +263,21 @@ def listOf (o : Option (List Bytes)) : List Bytes := o.getD []
 def accessHook (cfg : List Block) (e : Env) (lc : Bool) : Bool :=
   accessCheck (listOf (setting (·.allow) cfg e)) (listOf (setting (·.deny) cfg e)) e.url lc
 
-/-- mod_auth_uri_handler(): the guarding rule, if any -/
+/-- auth.require as patched for this request -/
+def authRules (cfg : List Block) (e : Env) : List AuthRule := (setting (·.auth) cfg e).getD []
+
+/-- mod_auth_uri_handler(): the guarding rule (first prefix match in file order), if any -/
 def authHook (cfg : List Block) (e : Env) (lc : Bool) : Option Nat :=
-  authRule (listOf (setting (·.auth) cfg e)) e.url lc
+  authRule ((authRules cfg e).map (·.pfx)) e.url lc
+
+/-- … and whether the request passes it: unguarded, or the guarding rule accepts the
+    authenticated user (`user` = name whose credentials verified: C16) -/
+def authPass (cfg : List Block) (e : Env) (lc : Bool) (user : Option Bytes) : Bool :=
+  match authHook cfg e lc with
+  | none => true
+  | some i => match (authRules cfg e)[i]? with
+    | some r => r.accepts user
+    | none => false
 
 /-! ### from URL path to file (response.c) -/
 
@@ -299,7 +369,7 @@ structure Req where
   peer : Bytes               -- address of the TCP peer, as text
   peerAddr : SockAddr
   hdrs : List (Bytes × Bytes)   -- request header fields (lower-cased name, value)
-  cred : Bool                -- carries credentials the guarding auth rule accepts (C16)
+  user : Option Bytes        -- user whose credentials the request carries and that verify (C16)
 
 structure Resp where
   status : Nat
@@ -322,11 +392,11 @@ def extConf (cfg : List Block) (e : Env) : Extforward.ExtConf :=
 
 /-- everything after the canonical path is known: hooks, path resolution, static file.
     `e` = request attributes with the (possibly forwarded) client address. -/
-def serveFrom (s : Server) (t : Target) (e : Env) (addr : Bytes) (cred : Bool) : Resp :=
-  let fail (st : Nat) : Resp := { status := st, uri := e.url, pathinfo := [], addr := addr, file := none }
+def serveFrom (s : Server) (t : Target) (e : Env) (user : Option Bytes) : Resp :=
+  let fail (st : Nat) : Resp := { status := st, uri := e.url, pathinfo := [], addr := e.addr.text, file := none }
   -- handle_uri_clean: mod_access, mod_auth
   if !accessHook s.cfg e s.lc then fail 403
-  else if (authHook s.cfg e s.lc).isSome && !cred then fail 401
+  else if !authPass s.cfg e s.lc user then fail 401
   else
     match resolve s.fs s.lc e.url with
     | .notFound => fail 404
@@ -337,22 +407,32 @@ def serveFrom (s : Server) (t : Target) (e : Env) (addr : Bytes) (cred : Bool) :
       let uri := e.url.take (e.url.length - n)
       let pi := if n = 0 then [] else pathinfoValue s.lc t.target (relPath s.lc e.url) n
       let e2 : Env := { e with url := uri }
-      let fail2 (st : Nat) : Resp := { status := st, uri := uri, pathinfo := pi, addr := addr, file := none }
+      let fail2 (st : Nat) : Resp :=
+        { status := st, uri := uri, pathinfo := pi, addr := e.addr.text, file := none }
       -- handle_subrequest_start: mod_access, mod_staticfile
       if !accessHook s.cfg e2 s.lc then fail2 403
+      else if (setting (·.noPathinfo) s.cfg e2).getD false && n != 0 then fail2 403
       else if staticExclude (listOf (setting (·.exclude) s.cfg e2)) (s.docroot ++ script) then fail2 403
-      else { status := 200, uri := uri, pathinfo := pi, addr := addr, file := some script }
+      else { status := 200, uri := uri, pathinfo := pi, addr := e.addr.text, file := some script }
+
+/-- the address mod_extforward attributes the request to (the TCP peer's unless a trusted
+    forwarder says otherwise); `none` = 400 -/
+def effAddr (beforeFix : Bool) (parse : Bytes → Option SockAddr) (s : Server) (r : Req) (path : Bytes) :
+    Option Addr :=
+  let e0 : Env := { url := path, host := r.host, addr := ⟨r.peerAddr, r.peer⟩ }
+  match Extforward.remoteAddr beforeFix parse (extConf s.cfg e0) r.peer r.hdrs with
+  | .bad => none
+  | .unchanged => some ⟨r.peerAddr, r.peer⟩
+  | .set a sa => some ⟨sa, a⟩
 
 /-- http_response_handler() for a GET request whose head has been parsed -/
 def serve (beforeFix : Bool) (parse : Bytes → Option SockAddr) (s : Server) (r : Req) : Resp :=
   match parseTarget s.opts false r.target with
   | .error st => { status := st, uri := [], pathinfo := [], addr := r.peer, file := none }
   | .ok t =>
-    let e0 : Env := { url := t.path, host := r.host, addr := r.peerAddr }
     -- handle_uri_raw: mod_extforward (its own configuration is patched with the peer's address)
-    match Extforward.remoteAddr beforeFix parse (extConf s.cfg e0) r.peer r.hdrs with
-    | .bad => { status := 400, uri := t.path, pathinfo := [], addr := r.peer, file := none }
-    | .unchanged => serveFrom s t e0 r.peer r.cred
-    | .set a sa => serveFrom s t { e0 with addr := sa } a r.cred
+    match effAddr beforeFix parse s r t.path with
+    | none => { status := 400, uri := t.path, pathinfo := [], addr := r.peer, file := none }
+    | some a => serveFrom s t { url := t.path, host := r.host, addr := a } r.user
 
 end LtVerif.Access
